@@ -86,7 +86,14 @@ C = {
          "they raise nothing and return the documented shape", "hostile LLM outputs at every call position through the real LLMRails in 8 Colang 1.0 modes and 3 Colang 2.x set-ups: generate never raises, well-formed "
                "message, template/variable syntax returned literally; output parsers", "str.split/strip/replace are uninterpreted with partial axioms (A-SPLIT, A-STRIP, A-REPLACE); containment of what happens inside actions is C03; "
          "the never-evaluated (data-flow) clause is bounded only"),
- "C18": (None, "StreamingHandler on all 2^(n-1) chunkings of short texts for every prefix/suffix/stop configuration family, three ways of driving it", "bounds in evidence"),
+ "C18": ("configurations without suffix and stop sequences (no pattern at all, or a prefix): StreamingHandler._process / push_chunk / on_llm_end under "
+         "relational contracts (SMT strings) and two ghost clients that carry the induction over the chunk sequence - for EVERY text, every prefix and "
+         "every way of splitting the text into chunks `completion` ends up as the text with the prefix removed (if the text starts with it), and every "
+         "_process call delivers exactly the string it appends to `completion`; frames of the three methods verified",
+         "StreamingHandler on all 2^(n-1) chunkings of short texts for every prefix/suffix/stop configuration family, three ways of driving it",
+         "suffix, stop sequences, buffering, pipe_to and chunk objects other than str are bounded only (15 known-finding classes live there); "
+         "asyncio.Event.is_set/set and asyncio.Queue.put are ASSUMED contracts (flag attribute; ghost trace of delivered items); the step from "
+         "'each call appends the same string to completion and to the queue' to 'delivered text == completion' is an induction stated in prose"),
  "C19": (None, "cache_embeddings / EmbeddingsCache / batching with a gated fake model: own vector per text, input order, completion of concurrent requests", "bounds in evidence"),
  "C20": ("every path the real _get_rails hands to RailsConfig.from_path (ghost trace) is the configured root or lies lexically inside it with no '..' component, on "
          "normal and exceptional exits, for every list of config ids", "thread-history clauses of chat_completion (stored thread ++ new messages ++ reply; threads never mix)",
